@@ -5,7 +5,7 @@ CONSTANTS
   MaxFaults = 2
   K = 2
   ByName = TRUE
-  SkipPingWhenBusy = FALSE
+  SkipPingWhenBusy = TRUE
   KeyByIdentity = FALSE
 INVARIANT Converges
 INVARIANT Refreshed
